@@ -112,8 +112,28 @@ def op_to_coq(op):
         return "(OExpand %d)" % op["arg"]
     if o == "util" and op["fn"] == "compress_markings":
         return "(OCompress %d)" % op["arg"]
+    if o == "mark" and op.get("level", "api") == "api":
+        fn = op["fn"]
+        ctor = {"set_markings": "ASet", "remove_markings": "ARemove", "add_markings": "AAdd", "clear_markings": "AClear",
+                "get_markings": "AGet", "is_marked": "AIsMarked"}.get(fn)
+        opts = op.get("opts") or {}
+        if ctor is None or (opts and ctor not in ("AGet", "AIsMarked")):
+            return None
+        if ctor in ("ASet", "ARemove", "AAdd") and "marking" not in op:
+            return None
+        if ctor == "AIsMarked" and "marking" not in op and op.get("selectors") is not None:
+            return None           # the worker would pass the selectors as the marking
+        return "(OApi %s %d %s %s)" % (ctor, op["arg"], _opt(op.get("marking")), _opt(op.get("selectors")))
+    if o == "remove_custom":
+        return "(ORemoveCustom %d)" % op["arg"]
     if o == "mark" and not op.get("opts"):
         lvl, fn = op.get("level"), op["fn"]
+        if lvl == "granular" and fn == "remove_markings":
+            return "(OGranularRemove %d %d %d)" % (op["arg"], op["marking"], op["selectors"])
+        if lvl == "granular" and fn == "set_markings":
+            return "(OGranularSet %d %d %d)" % (op["arg"], op["marking"], op["selectors"])
+        if lvl == "object" and fn == "set_markings":
+            return "(OObjectSet %d %d)" % (op["arg"], op["marking"])
         if lvl == "granular" and fn == "add_markings":
             return "(OGranularAdd %d %d %d)" % (op["arg"], op["marking"], op["selectors"])
         if lvl == "granular" and fn == "clear_markings":
@@ -480,6 +500,64 @@ def sc_markings(rng):
     return b.case()
 
 
+def sc_api_markings(rng):
+    """the public marking API (stix2.markings.* and the object methods): dispatch on
+    `selectors is None`, remove / set on both levels, remove_custom_stix"""
+    b = B(rng, "api-markings")
+    ver = pick_ver(rng)
+    ty = rng.choice(["identity", "malware"])
+    as_dict = rng.random() < 0.35
+    kwt = sdo_kw(rng, ver, ty, full=as_dict, markings=rng.random() < 0.75)
+    kwt.setdefault("description", "d")
+    custom = rng.random() < 0.4
+    if custom:
+        kwt["x_verif"] = rng.choice([{"deep": [{"a": 1}, [2, 3]]}, ["p"], "v"])
+    kw = b.mk(share_members(b, kwt, 0.3))
+    obj = kw if as_dict else b.add(op="construct", cls=cls_name(ver, CLS[ty]), kw=kw, **({"allow_custom": True} if custom else {}))
+    sels = b.mk(rng.choice([["name"], ["description", "name"], "name", "description"]))
+    mk = marking_args(rng, b, ver)
+    if kwt.get("granular_markings") and rng.random() < 0.6:
+        g = kwt["granular_markings"][0]
+        sels = b.mk(list(g["selectors"]))
+        mk = b.mk(rng.choice([g["marking_ref"], [g["marking_ref"]]]))
+    elif kwt.get("object_marking_refs") and rng.random() < 0.5:
+        mk = b.mk(rng.choice([kwt["object_marking_refs"][0], list(kwt["object_marking_refs"])]))
+    cur = obj
+    for _ in range(rng.randint(2, 5)):
+        r = rng.randrange(12)
+        meth = {"method": True} if rng.random() < 0.4 else {}
+        withsel = rng.random() < 0.6
+        sel = {"selectors": sels} if withsel else {}
+        if r == 0:
+            n = b.add(op="mark", fn="set_markings", arg=cur, marking=mk, **sel, **meth)
+        elif r == 1:
+            n = b.add(op="mark", fn="remove_markings", arg=cur, marking=mk, **sel, **meth)
+        elif r == 2:
+            n = b.add(op="mark", fn="add_markings", arg=cur, marking=mk, **sel, **meth)
+        elif r == 3:
+            n = b.add(op="mark", fn="clear_markings", arg=cur, **sel, **meth)
+        elif r == 4:
+            b.add(op="mark", fn="get_markings", arg=cur, **sel, **meth,
+                  **({"opts": {"inherited": True}} if withsel and rng.random() < 0.5 else {}))
+            continue
+        elif r == 5:
+            b.add(op="mark", fn="is_marked", arg=cur, marking=mk, **sel, **meth)
+            continue
+        elif r == 6:
+            n = b.add(op="mark", fn="remove_markings", level="granular", arg=cur, marking=mk, selectors=sels)
+        elif r == 7:
+            n = b.add(op="mark", fn="set_markings", level="granular", arg=cur, marking=mk, selectors=sels)
+        elif r == 8:
+            n = b.add(op="mark", fn="set_markings", level="object", arg=cur, marking=mk)
+        elif r == 9:
+            n = b.add(op="remove_custom", arg=cur)
+        else:
+            n = b.add(op="mark", fn="remove_markings", level="object", arg=cur, marking=mk)
+        if rng.random() < 0.5:
+            cur = n
+    return b.case()
+
+
 def sc_bundle_store(rng):
     b = B(rng, "bundle-store")
     ver = pick_ver(rng)
@@ -611,7 +689,7 @@ def sc_refusals(rng):
     return b.case()
 
 
-MODELLED = [(sc_extensions, 5), (sc_observed, 4), (sc_sdo, 4), (sc_markings, 5), (sc_bundle_store, 3),
+MODELLED = [(sc_extensions, 5), (sc_observed, 4), (sc_sdo, 4), (sc_markings, 5), (sc_api_markings, 5), (sc_bundle_store, 3),
             (sc_store_get, 2), (sc_factory, 3), (sc_refusals, 2)]
 
 
@@ -736,7 +814,7 @@ def sc_stores(rng):
 SNAPSHOT_ONLY = [(sc_api, 3), (sc_stores, 2)]
 
 
-KIND_OF = {sc_extensions: "extensions", sc_observed: "observed-data", sc_sdo: "sdo", sc_markings: "markings",
+KIND_OF = {sc_api_markings: "api-markings", sc_extensions: "extensions", sc_observed: "observed-data", sc_sdo: "sdo", sc_markings: "markings",
            sc_bundle_store: "bundle-store", sc_store_get: "store-get", sc_factory: "factory", sc_refusals: "refusals",
            sc_api: "api", sc_stores: "stores"}
 
